@@ -465,3 +465,26 @@ pub fn op_ae(a: &[&str]) -> String {
         _ => "bad-op".into(),
     }
 }
+
+/// 32-bit discrete log under a configuration (C10)
+pub fn op_dlog(a: &[&str]) -> String {
+    use solana_zk_sdk::encryption::discrete_log::DiscreteLog;
+    use std::num::NonZeroUsize;
+    let (t, threads, batch) = match a {
+        [t, _k, th, b] => (t, th, b),
+        [t, th, b] => (t, th, b),
+        _ => return "bad-op".into(),
+    };
+    let Some(tb) = unhex(t) else { return "bad-op".into() };
+    let Some(p) = curve25519_dalek::ristretto::CompressedRistretto::from_slice(&tb).ok().and_then(|c| c.decompress()) else { return "bad-op".into() };
+    let mut d = DiscreteLog::new_for_g(p);
+    if *threads != "-" {
+        let Some(n) = threads.parse::<usize>().ok().and_then(NonZeroUsize::new) else { return "bad-op".into() };
+        if d.num_threads(n).is_err() { return "err".into() }
+    }
+    if *batch != "-" {
+        let Some(n) = batch.parse::<usize>().ok().and_then(NonZeroUsize::new) else { return "bad-op".into() };
+        if d.set_compression_batch_size(n).is_err() { return "err".into() }
+    }
+    match d.decode_u32() { Some(x) => format!("some:{}", x), None => "none".into() }
+}
